@@ -143,6 +143,24 @@ def opAipswFitG (a : Args) : Except String String := do
   let (rd, rr) := Gen.aipsw_fit g false hasI l (look ipsw) (look iptw) (look q1) (look q0)
   pure s!"ok rd={sh rd} rr={sh rr}"
 
+/-- generated `IPSW.fit` on the implementation's own arrays -/
+def opIpswFitG (a : Args) : Except String String := do
+  let l : List (Row F) ← parseRows a
+  let hasW ← need a "hasw" parseBool
+  let hasI ← need a "hasiptw" parseBool
+  let sw : Array F ← vals a "ipsw"
+  let tw : Array F ← vals a "iptw"
+  let (rd, rr) := Gen.ipsw_fit hasW hasI l (look sw) (look tw)
+  pure s!"ok rd={sh rd} rr={sh rr}"
+
+/-- generated marginal-mean lines of `TimeFixedGFormula.fit` on the implementation's predictions -/
+def opGfMargG (a : Args) : Except String String := do
+  let l : List (Row F) ← parseRows a
+  let hasW ← need a "hasw" parseBool
+  let st ← need a "tgt" some
+  let pred : Array F ← vals a "pred"
+  pure s!"ok m={sh (Gen.gformula_marginal hasW st l (look pred) (fun _ => true))}"
+
 /-- standardized means over the generalize / transport target -/
 def opStdGenG (a : Args) : Except String String := do
   let l : List (Row F) ← parseRows a
@@ -167,6 +185,8 @@ def opsStd : OpTable := [
   ("gtrans", atCarrier (opGtransG (F := Rat)) (opGtransG (F := Float))),
   ("aipsw", atCarrier (opAipswG (F := Rat)) (opAipswG (F := Float))),
   ("aipswfit", atCarrier (opAipswFitG (F := Rat)) (opAipswFitG (F := Float))),
+  ("ipswfit", atCarrier (opIpswFitG (F := Rat)) (opIpswFitG (F := Float))),
+  ("gfmarg", atCarrier (opGfMargG (F := Rat)) (opGfMargG (F := Float))),
   ("stdgen", atCarrier (opStdGenG (F := Rat)) (opStdGenG (F := Float)))]
 
 end ZVD
